@@ -212,7 +212,8 @@ def exhaustive_cases(depth):
 # ---------------------------------------------------------------------------------------------------
 
 def model_case(cfg, w):
-    return "run_obs %s %s" % (L.init_expr(cfg), L.labels_expr(w.resolved))
+    """the scripted part as executed, then the tail as generated by the model's own fair environment"""
+    return "run_obs %s %s" % (L.init_expr(cfg), L.tail_expr(cfg, w))
 
 
 def describe(cfg, script):
